@@ -242,6 +242,9 @@ def correspond_interval(run, tier, rng):
         st = build_state(betas, logzs, batches)
         logw_u, logz = st.compute_logw_and_logz(beta, normalize=False)
         N = len(logw_u)
+        if not (np.all(np.isfinite(logw_u)) and np.isfinite(logz)):
+            run.fail("non-finite", "non-finite log-weights or evidence for finite inputs", betas=betas, logzs=logzs, batches=batches, beta=beta)
+            continue
         picks = sorted(set([0, N - 1, rng.randrange(N)]))
         tag = f"c{t}"
         cases.append((tag, betas, logzs, batches, beta, picks))
